@@ -381,6 +381,60 @@ class Facts:
         # partial writes into the local (field assignments) also feed it
         return roots
 
+    def closure_site(self, q):
+        """(parent function, block, captured operands) of the aggregate that builds closure q, or None"""
+        if '::{closure#' not in q:
+            return None
+        parent = q.rsplit('::{closure#', 1)[0]
+        if parent not in self.bodies:
+            return None
+        for bi, blk in enumerate(self.bodies[parent]['mir']['blocks']):
+            for st in blk['s']:
+                if st[0] == 'assign' and st[2][0] == 'agg' and st[2][1][0] == 'closure' and st[2][1][1] == q:
+                    return parent, bi, st[2][2]
+        return None
+
+    def trace_env(self, path, op, deep=False, depth=0):
+        """trace, with a closure's captured variables (fields of its environment parameter) replaced by their provenance in the
+        enclosing function: a closure body is read as if it were written inline"""
+        roots = self.trace(path, op, deep=deep)
+        site = self.closure_site(path) if depth < 3 else None
+        if not site:
+            return roots
+        parent, _, ops = site
+        out = []
+        for r in roots:
+            if r[0] == 'param' and r[1] == 1 and r[2] and str(r[2][0]).isdigit() and int(r[2][0]) < len(ops):
+                sub = self.trace_env(parent, ops[int(r[2][0])], deep=deep, depth=depth + 1)
+                rest = tuple(r[2][1:])
+                for x in sub:
+                    if x[0] == 'param' and rest:
+                        out.append(('param', x[1], tuple(x[2]) + rest))
+                    else:
+                        out.append(x)
+            else:
+                out.append(r)
+        return out
+
+    def closure_payload_roots(self, q, depth=0):
+        """provenance (deep) of what closure q is applied to: the receiver of the combinator / adaptor call the closure is handed to in
+        the enclosing function (`xs.iter().filter(..).for_each(|x| ..)`: x comes from xs)"""
+        site = self.closure_site(q) if depth < 3 else None
+        if not site:
+            return []
+        parent = site[0]
+        out = []
+        for i, c in self.calls(parent):
+            if not c['args']:
+                continue
+            if not any(r[0] == 'agg' and r[1][0] == 'closure' and r[1][1] == q for a in c['args'][1:] for r in self.trace(parent, a)):
+                continue
+            rs = self.trace_env(parent, c['args'][0], deep=True)
+            out += rs
+            if any(r[0] == 'param' and r[1] >= 2 for r in rs):
+                out += self.closure_payload_roots(parent, depth + 1)
+        return out
+
     def span_of_call(self, c):
         sp = c.get('span') or {}
         return sp.get('callsite') or sp.get('at') or '?'
